@@ -31,7 +31,7 @@ def _run_chunk(args):
     m = re.search(r"The depth of the complete state graph search is (\d+)", r.out)
     if m:
         matched = int(m.group(1)) - 1
-    inv = r.violated
+    inv = None if r.violated == "POSTCONDITION" else r.violated      # a failed postcondition = plain rejection
     return dict(path=path, accepted=accepted, matched=matched, violated=inv, error=r.error, rc=r.rc,
                 distinct=r.distinct, generated=r.generated, wall=r.wall, out_tail=r.out[-3000:])
 
